@@ -1,5 +1,6 @@
 import XMT.Drv.Util
 import XMT.Job
+import XMT.JobSub
 namespace XMT.Drv.C14
 open XMT XMT.Job XMT.Drv
 
@@ -104,6 +105,86 @@ def stepOf (variant : String) (prog : List Kind) : Option (St → Nat → St) :=
   else if variant = "O1" then some (stepO true prog)
   else none
 
+/-! ### sub-step model (XMT/JobSub.lean), op `runS` -/
+
+def parseKindS (tok : String) : Option JobSub.KindS :=
+  match splitOn1 tok ':' with
+  | ["w", k] => do some (.waitRd (← natOf k))
+  | ["d", k] => do some (.doneRd (← natOf k))
+  | ["e", k] => do some (.isError (← natOf k))
+  | _ =>
+    match parseKind tok with
+    | some (.task i d w) => some (.task i d w)
+    | some (.result i e g) => some (.result i e g)
+    | some (.cancel k) => some (.cancel k)
+    | some (.accept i) => some (.accept i)
+    | some (.frag i m c) => some (.frag i m c)
+    | _ => none
+
+def actsOf (variant : String) : Option (List JobSub.CAct) :=
+  if variant = "F" then some JobSub.cancelActs
+  else if variant = "O" then some JobSub.cancelActsO
+  else none
+
+def labelAtS (acts : List JobSub.CAct) (prog : List JobSub.KindS) (s : JobSub.StS) (t : Nat) : String :=
+  match prog[t]? with
+  | none => "end"
+  | some k => JobSub.labelS acts k (s.loc t).pc
+
+def runTillS (acts : List JobSub.CAct) (step : JobSub.StS → Nat → JobSub.StS) (prog : List JobSub.KindS) (t : Nat)
+    (lbl : String) : Nat → JobSub.StS → JobSub.StS
+  | 0, s => s
+  | fuel + 1, s =>
+    if labelAtS acts prog s t = lbl ∨ (s.loc t).pc = fin then s else
+    let s' := step s t
+    if (s'.loc t).pc = (s.loc t).pc then s' else runTillS acts step prog t lbl fuel s'
+
+def runEntryS (acts : List JobSub.CAct) (step : JobSub.StS → Nat → JobSub.StS) (prog : List JobSub.KindS)
+    (s : JobSub.StS) : Entry → JobSub.StS
+  | .one t => step s t
+  | .till t lbl => runTillS acts step prog t lbl 16 s
+
+def drainS (step : JobSub.StS → Nat → JobSub.StS) (n : Nat) : Nat → JobSub.StS → JobSub.StS
+  | 0, s => s
+  | fuel + 1, s =>
+    let s' := (List.range n).foldl step s
+    if (List.range n).all (fun t => (s'.loc t).pc == (s.loc t).pc) then s' else drainS step n fuel s'
+
+def showOutS (acts : List JobSub.CAct) (prog : List JobSub.KindS) (s : JobSub.StS) (t : Nat) : String :=
+  let l := s.loc t
+  if l.pc ≠ fin then s!"blk@{labelAtS acts prog s t}" else
+  let base := match l.out with
+    | .none => "-"
+    | .job r => s!"job{r}"
+    | .errNoId => "enoid"
+    | .errDup => "edup"
+    | .errWrite => "ewrite"
+    | .handled => "h1"
+    | .ignored => "h0"
+    | .ret => "ret"
+    | .bool b => if b then "d1" else "d0"
+    | .panicClosed => "panic:closed"
+    | .panicNil => "panic:nil"
+  let isRd := match prog[t]? with
+    | some (.waitRd _) => true
+    | some (.doneRd _) => true
+    | _ => false
+  if isRd then
+    let a := match l.oSt with | none => "_" | some v => toString v
+    let b := match l.oRes with | none => "_" | some none => "-" | some (some g) => toString g
+    let c := match l.oErr with | none => "_" | some v => b01 v
+    s!"{base}[{a}/{b}/{c}]"
+  else base
+
+def showStateS (acts : List JobSub.CAct) (prog : List JobSub.KindS) (s : JobSub.StS) : String :=
+  let thr := ",".intercalate ((List.range prog.length).map (showOutS acts prog s))
+  let jobs := ";".intercalate ((List.range s.nJobs).map (fun r => showJob (s.jobs r)))
+  let ids := ((List.range s.nJobs).map (fun r => (s.jobs r).id)).foldl (fun acc x => insertSorted x acc) []
+  let tab := ",".intercalate (ids.filterMap (fun i => (s.table i).map (fun r => s!"{i}>{r}")))
+  let pub := ".".intercalate (s.pub.map toString)
+  let d (x : String) := if x = "" then "-" else x
+  s!"thr={d thr} jobs={d jobs} tab={d tab} n={s.count} pub={d pub} lock={b01 s.lock.isSome}"
+
 def handle (args : List String) : String :=
   match args with
   | ["run", variant, threads, script] =>
@@ -125,6 +206,14 @@ def handle (args : List String) : String :=
       let table : Nat → Option Nat := fun k => if ts.contains k then some 0 else none
       if resyncApplied table i then "applied" else "ignored"
     | _, _ => "bad-op"
+  | ["runS", variant, threads, script] =>
+    match (splitOn1 threads ',').mapM parseKindS, parseScript script, actsOf variant with
+    | some prog, some sc, some acts =>
+      let step := JobSub.stepG acts prog
+      let s := sc.foldl (runEntryS acts step prog) ({} : JobSub.StS)
+      let s := drainS step prog.length (12 * prog.length + 12) s
+      showStateS acts prog s
+    | _, _, _ => "bad-op"
   | _ => "bad-op"
 
 end XMT.Drv.C14
